@@ -75,7 +75,7 @@ CLAIMS = {
              'c06_no_fuel_exhaustion (every loop consumes input: linear number of iterations), c06_pairing_incremental / '
              'filter / limit (the downstream pipeline never revises what it reported); closed under the global context. '
              'Correspondence on EVERY truncation offset of generated dumps through a counting reader with a read budget; '
-             'lines-prefix and count-limit checked differentially incl. process/tid/class filters on semantic streams.',
+             'lines-prefix and count-limit checked differentially incl. process/tid/class filters on semantic streams. The command line\'s --count loop is modelled (Cli.v: c06_count, c06_count_prefix, c06_count_incremental) and every command is run through click\'s test runner on whole and cut dumps against the API\'s lines.',
         note='trusted: as C02, plus the v3 part of Container.v (seek_until, Prefixed, Aligned/Select, GreedyRange). partial: '
              'wall-clock termination of CPython observed (budget + timeout), proof is about model loop fuel; formatted-line '
              'prefix is differential (formatter model is C14)',
@@ -110,7 +110,7 @@ CLAIMS = {
              'c09_sweep_positional + c09_position (a numeric parameter at position k reads START word k and NOTHING else, for '
              'ALL tuples/END records/contexts/hosts), c09_sweep_faithful + c09_faithful_injective (it shows the whole word in an '
              'injective form, up to a spec-side list of typed narrowings), c09_call_part (call part independent of the END '
-             'record); closed under the global context. String-exact correspondence on every row.',
+             'record); closed under the global context. String-exact correspondence on every row. c09_call_from_START_record (DecoderWindow.v): the records between START and END other than the lookups are not read; checked through the pairing machine (stale START, 1100..66000 records in between).',
         note='trusted: Coq kernel+vm_compute; tr_decoders.py (fail-closed symbolic evaluator) and DecoderDSL.render, both '
              'validated string-exactly against str(trace) on every row each run; composite decoders are hand models',
         technique='Coq proof over generated decoder table (dependency analysis lifted by one induction) + correspondence',
@@ -119,7 +119,7 @@ CLAIMS = {
         text='Coq theorems over the regenerated rows: c10_sweep (every decoded BSD syscall other than the property\'s exempt list '
              'ends in a result shape, and the exempt list is exactly the set that does not), c10_result_text (error word != 0 -> '
              '", errno: NAME(code)" | ", errno: code" and no success value; == 0 -> no errno, success value = rendering of the END '
-             'return word; for ALL START/END tuples), c10_result_reads_end_only, c10_pipe; closed under the global context.',
+             'return word; for ALL START/END tuples), c10_result_reads_end_only, c10_pipe; closed under the global context. c10_result_from_END_record (DecoderWindow.v): the decoder\'s context is that of the bare window with only the lookups kept; whole windows with in-between records, non-monotonic and equal timestamps, 1100..66000 nested calls go through the model (wcheck) and the API.',
         note='trusted: as C09; serialize_result\'s body is matched textually by the translator against the one the RESULT token '
              'models', technique='Coq proof over generated decoder table + correspondence', ref='DESIGN.md §5 C10'),
     'C17': dict(
@@ -169,7 +169,7 @@ CLAIMS = {
              'the pairing machine, after ANY history: no trace until the END record, which delivers the whole run), '
              'c08_sweep_paths_in_order + c08_path_shown (every path-taking syscall row shows lookups in lookup order); closed under '
              'the global context. Correspondence on every boundary length with multi-byte characters; once-ness and syscall paths '
-             'through the public API with unrelated records in between.',
+             'through the public API with unrelated records in between. Whole syscall windows (lookups of several records, lookup-done notices, unrelated records) are rendered by the model from its own path reassembly (DecoderWindow.ctx_of_window, wcheck).',
         note='trusted: Coq kernel+vm_compute; Chunks.v hand models (kernel encoders on the spec side) validated against the real '
              'decoders; pairing model of C04; regenerated rows for the syscall path arguments; UTF-8 decoding is a library oracle',
         technique='Coq proof (encoder/reassembler round trip, pairing spec) + correspondence', ref='DESIGN.md §5 C08'),
@@ -211,7 +211,7 @@ CLAIMS = {
         text='Coq theorems c12_events/sat_meaning/logs/no_logs_in_events/no_events_in_logs: for EVERY stream and EVERY '
              'configuration the filtered listings equal `filter` of the unfiltered listing by the stated predicate (order and '
              'multiplicity preserved); closed under the global context. Hand model tied to the code by a correspondence '
-             'through real v2/v3 dumps and the public API.',
+             'through real v2/v3 dumps and the public API. The option type of the class / subclass filters is modelled (CliInt.v: Python\'s int(text, 0) grammar; c12_option_hex/oct/bin/dec) and compared with BASED_INT.convert and with int(text, 0); the kevents / logs commands run against the API; every third case on a parser object that served other settings before.',
         note='trusted: Coq kernel+vm_compute; hand model Filters.v validated against PyKdebugParser.kevents/os_log_events; '
              'container parsing is C02/C03', technique='Coq proof (filter-chain algebra) + differential correspondence',
         ref='DESIGN.md §5 C12'),
